@@ -117,6 +117,11 @@ def with_item_shapes():
         out.append(f"with ({e} as x, {e}): pass\n")
         out.append(f"with ({e}, {e} as y,): pass\n")
         out.append(f"async def f():\n    async with {e} as x, {e}: pass\n")
+    # parenthesised heads that continue as an expression (the with-item / parenthesised-with ambiguity)
+    out += ["with (a, b) as c: pass\n", "with (a), (b): pass\n", "with (a) as b, (c) as d: pass\n", "with ((a, b)): pass\n",
+            "with (a)(b): pass\n", "with (a).b: pass\n", "with (a)[0]: pass\n", "with (a) + b: pass\n", "with (a, b)[0]: pass\n",
+            "with (a := 1), b: pass\n", "with (a := 1): pass\n", "with (yield): pass\n", "with (a for a in b): pass\n",
+            "with (a if b else c) as d: pass\n", "with (lambda: a)(): pass\n", "with (a, b), c: pass\n", "with (a) if b else c: pass\n"]
     for t in ("x", "x.y", "x[0]", "(x, y)", "[x, y]", "(x)", "x, y", "*x, y", "(*x, y)", "[*x]"):
         out.append(f"with a as {t}: pass\n")
         out.append(f"with (a as {t}): pass\n")
@@ -200,6 +205,7 @@ def rule_violations():
     alists = ["a=1,b", "a=1, b", "**a,b", "**a,*b", "**a, *b", "a=1,a=2", "a=1, a=2", "k=1,**d,k=2", "**a,b=1,*c", "*a,b=1,c"]
     for a in alists:
         out += [f"f({a})\n", f"f( {a} )\n", f"class C({a}): pass\n", f"@f({a})\ndef g(): pass\n", f"x = f(g({a}))\n", f"f({a},)\n"]
+    out += ["with (**a): pass\n", "with (a, **b): pass\n", "x = (**a)\n", "with (**a) as b: pass\n"]
     out += ["(*a)\n", "( *a )\n", "(**a)\n", "x = (*a)\n", "f((*a))\n", "[(*a)]\n", "match x:\n    case 1 as _: pass\n",
             "match x:\n    case [a, b as _]: pass\n", "match x:\n    case (1|2) as _: pass\n"]
     return list(dict.fromkeys(out))
